@@ -1236,7 +1236,10 @@ mod convert {
                 return Err(ConvertError::MissingCompilationName);
             };
 
-            if from_header.line_base() > 0 {
+            // `LineProgram::new` requires a special opcode for a line advance of 0.
+            if line_encoding.line_base > 0
+                || i16::from(line_encoding.line_base) + i16::from(line_encoding.line_range) <= 0
+            {
                 return Err(ConvertError::InvalidLineBase);
             }
             let mut program = LineProgram::new(
